@@ -44,10 +44,30 @@ _so_cache = {}
 def harness_native(name, extra=()):
     """g++ -O2 build of the same harness TU as a shared object (translator validation, replay)"""
     if name not in _so_cache:
-        so = build.compile_native(os.path.join(HARNESS, name + '.cpp'), 'lib' + name + '.so',
-                                  extra=['-shared', '-fPIC'] + list(extra))
-        _so_cache[name] = ctypes.CDLL(so)
+        _so_cache[name] = load_native(os.path.join(HARNESS, name + '.cpp'), 'lib' + name + '.so', extra)
     return _so_cache[name]
+
+
+def load_native(src, soname, extra=()):
+    """build a harness TU as shared object; library symbols the unit does not define (it is driven in
+    isolation) are satisfied by trapping weak stubs so that the object can be loaded"""
+    so = build.compile_native(src, soname, extra=['-shared', '-fPIC'] + list(extra))
+    if os.environ.get('VERIF_SCRATCH_CHILD'):
+        return ctypes.CDLL(so)
+    r = subprocess.run(['nm', '-D', '--undefined-only', so], capture_output=True, text=True)
+    und = [ln.split()[-1] for ln in r.stdout.splitlines() if 'gm2calc' in ln and ln.split()[-1].startswith('_Z')]
+    if und:
+        stub = os.path.join(build.scratch(), soname + '.stubs.c')
+        with open(stub, 'w') as f:
+            for sym in und:
+                if sym.startswith(('_ZTV', '_ZTI', '_ZTS', '_ZTT')):
+                    f.write('__attribute__((weak)) char %s[256];\n' % sym)
+                else:
+                    f.write('__attribute__((weak)) void %s(void) { __builtin_trap(); }\n' % sym)
+        obj = stub[:-2] + '.o'
+        subprocess.check_call(['gcc', '-c', '-fPIC', '-w', stub, '-o', obj])
+        so = build.compile_native(src, soname, extra=['-shared', '-fPIC', obj] + list(extra))
+    return ctypes.CDLL(so)
 
 
 def native_fn(lib, name, nargs, restype=ctypes.c_double):
